@@ -21,3 +21,10 @@ package quorum
 //@   -- C19: the trust root is installed only if none was installed, and a later attempt fails without touching state
 //@   ensures[c19-once] err == nil ==> old(Store)[peerKey(cid)] == None
 //@   ensures[c19-rejected] old(Store)[peerKey(cid)] != None ==> err != nil && Store == old(Store)
+//@ func (*QuorumValSet).Deserialize
+//@   property C04
+//@   mode abstract
+//@   nopanic on
+//@   requires vs != nil && source != nil && source.off <= uint64(len(source.s))
+//@   modifies *
+//@   loop 1 invariant source != nil && source.off <= uint64(len(source.s)) && uint64(len(nvs)) == l
